@@ -315,9 +315,9 @@ impl<'a> VisitMut for Rewriter<'a> {
                 let name = m.method.to_string();
                 match name.as_str() {
                     "for_each" => self.r1_for_each(m),
-                    "try_for_each" => self.r1_try_for_each(m),
-                    "fold" => self.r2_fold(m),
-                    "collect" => self.r3_collect(m),
+                    "try_for_each" => self.r1_try_for_each(m).map(|b| parse_quote! { (#b) }),
+                    "fold" => self.r2_fold(m).map(|b| parse_quote! { (#b) }),
+                    "collect" => self.r3_collect(m).map(|b| parse_quote! { (#b) }),
                     _ => None,
                 }
             }
